@@ -347,11 +347,11 @@ type schedule struct {
 }
 
 type chunkStats struct {
-	boundaries                              []int
+	boundaries                                     []int
 	inTok, inStr, inCom, inRune1, inRune2, inRune3 int
-	fired                                   bool
-	firedN                                  int
-	zero                                    int
+	fired                                          bool
+	firedN                                         int
+	zero                                           int
 }
 
 var errFault = verifsim.ErrInjected
@@ -653,8 +653,10 @@ func (p Prop) oneSchedule(r *core.Run, doc *document, base decoded, sch schedule
 		r.Nontrivial(h.Sum64())
 	}
 	if r.T.Pos()%97 == 0 || r.Tracing {
-		r.Sample(map[string]any{"document_bytes": len(doc.data), "statements": len(doc.texts), "damage": doc.damaged, "reads": rd.Calls, "fault": f.String(), "schedule_style": sch.style,
-			"boundaries_inside_token_string_comment_rune": []int{cs.inTok, cs.inStr, cs.inCom, cs.inRune1 + cs.inRune2 + cs.inRune3}, "policies": len(got.policies), "terminal_error": errStr(got.err), "document_head": clipN(doc.data, 160)})
+		r.Quiet(func() {
+			r.Sample(map[string]any{"document_bytes": len(doc.data), "statements": len(doc.texts), "damage": doc.damaged, "reads": rd.Calls, "fault": f.String(), "schedule_style": sch.style,
+				"boundaries_inside_token_string_comment_rune": []int{cs.inTok, cs.inStr, cs.inCom, cs.inRune1 + cs.inRune2 + cs.inRune3}, "policies": len(got.policies), "terminal_error": errStr(got.err), "document_head": clipN(doc.data, 160)})
+		})
 	}
 
 	switch {
